@@ -28,11 +28,11 @@ def harness_extra(ctx):
     inc = [os.path.join(core.VERIF, "harness", "verif_nrf"), os.path.join(r, NORDIC, "nrf52"),
            os.path.join(r, NORDIC, "nrf52", "include"), os.path.join(r, NORDIC, "include"),
            os.path.join(r, NORDIC, "uECC"), os.path.join(r, "tests", "test_tools")]
+    objs = core.parallel([(NORDIC + "/uECC/uECC.c", "uECC.o", ["-DuECC_CURVE=uECC_secp256r1"]),
+                          ("tests/test_tools/aes.c", "aes.o", [])], lambda j: _obj(ctx, j[0], j[1], j[2]), 2)
     # -fpermissive: the code stores a pointer in the 32 bit ECBDATAPTR register; -no-pie: static storage below 4 GB
-    return (["-fpermissive", "-no-pie"] + ["-I" + i for i in inc] +
-            [_obj(ctx, NORDIC + "/uECC/uECC.c", "uECC.o", ["-DuECC_CURVE=uECC_secp256r1"]),
-             _obj(ctx, "tests/test_tools/aes.c", "aes.o"),
-             os.path.join(r, "bluetoe", "utility", "address.cpp")])
+    return (["-fpermissive", "-no-pie"] + ["-I" + i for i in inc] + objs +
+            [os.path.join(r, "bluetoe", "utility", "address.cpp")])
 
 
 def hexb(bs):
